@@ -1,6 +1,6 @@
 """C20 RISC-V 64 JIT output is equivalent to the interpreter."""
 import astq
-from rules import genreset, jit, jitcross, rv64
+from rules import genreset, jit, jitcross, rv64, rvhsem
 
 LEVEL = 'other'
 TECHNIQUE = 'cross-target parse (clang --target=riscv64) of the back-end that this host never compiles + sibling agreement with the interpreter on resolved-AST feature vectors, known-bits evaluation of emitted constants and of branch-offset bit scatter against the ISA encoding tables, finite enumeration of the literal-pool index, max-path code-size bound against the assembled template'
@@ -33,3 +33,4 @@ def run(ctx, R):
     jitcross.rule_life_wx_arch(ctx, R, 'rv64')
     jitcross.rule_emask(ctx, R, 'rv64')
     genreset.rule_gen_reset(ctx, R, 'rv64')
+    rvhsem.rule_hsem(ctx, R)
